@@ -335,6 +335,9 @@ func (g *Gen) wrongType() interface{} {
 
 // Value generates a value for a field of type t.
 func (g *Gen) Value(t reflect.Type, ti TagInfo, depth int) interface{} {
+	if t.Kind() == reflect.Map && t.Key().Kind() != reflect.String {
+		return map[string]interface{}{} // maps with non-string keys are only generated empty
+	}
 	if depth > 0 && g.chance(1, 60) {
 		// malformed: a value of the wrong shape for a scalar / composite
 		switch t.Kind() {
@@ -844,6 +847,9 @@ func (g *Gen) container(t reflect.Type, ti TagInfo) interface{} {
 	case reflect.Slice, reflect.Array:
 		return []interface{}{g.container(t.Elem(), ti)}
 	case reflect.Map:
+		if t.Key().Kind() != reflect.String {
+			return map[string]interface{}{}
+		}
 		return map[string]interface{}{"X-Test": g.container(t.Elem(), ti)}
 	}
 	return g.Value(t, ti, 3)
